@@ -776,13 +776,15 @@ def oracle_unary_all(ck: core.Check) -> dict:
             stats["rejected"] += 1
             stats["not_observable"] += [f"{c['module']}:{n}" for n in c["ops"]]
             continue
+        if c.get("attrs"):
+            stats["attribute_settings"] = stats.get("attribute_settings", 0) + st.get("applied", 0)
         stats["runs"] += st["runs"]
         stats["runs_refused_by_runtime"] += st["refused"]
         stats["vars_checked"] += st["checked"]
         stats["operators_applied"] += st.get("applied", 0)
         stats["not_observable"] += [f"{c['module']}:{n}" for n in st.get("unloadable", [])]
         for n in c["ops"]:
-            ck.count(("unary-all", c["module"], n, c.get("symbolic", False)) if st["checked"] else None)
+            ck.count(("unary-all", c["module"], json.dumps(n), c.get("symbolic", False)) if st["checked"] else None)
         report(ck, st["fails"], case)
     if stats["operators_applied"] < 300:
         ck.broken("correspondence", "single-input operators not observable", f"only {stats['operators_applied']} constructors could be applied")
